@@ -103,3 +103,20 @@ func VerifShiftTimesOf(rm *RegistrationManager, reg *DecoyRegistration, d time.D
 		}
 	}
 }
+
+// VerifIngestMessage runs what an ingest worker does with one serialized C2SWrapper: parse it into
+// registrations (one per address family) and ingest each. Returns the number of registrations built.
+func VerifIngestMessage(rm *RegistrationManager, b []byte) (int, error) {
+	regs, err := rm.parseRegMessage(b)
+	if err != nil {
+		return 0, err
+	}
+	n := 0
+	for _, reg := range regs {
+		if reg != nil {
+			rm.ingestRegistration(reg)
+			n++
+		}
+	}
+	return n, nil
+}
